@@ -74,10 +74,12 @@ impl SchedulerCore {
         // Now claim the queue
         let mut queue_core  = queue.core.lock().expect("Queue lock");
 
-        // The queue must be idle or pending to be claimable
+        // The queue must be idle or pending to be claimable, or waiting for a future that drained it to be polled again: that future
+        // may have been dropped or its task may be this very thread, so like a pool thread (see next_to_run) the caller races it
         match queue_core.state {
-            QueueState::Pending |
-            QueueState::Idle    => {
+            QueueState::Pending             |
+            QueueState::Idle                |
+            QueueState::WaitingForPoll(_)   => {
                 // Move the queue to the running state
                 queue_core.state = QueueState::Running;
 
